@@ -140,6 +140,7 @@ func main() {
 		c := cases[i]
 		r.Guard(fmt.Sprintf("%v/%d/%v", c.list, c.length, c.armored), func() { runCase(r, i, c) })
 	})
+	derivedValuesStage(r)
 	if r.Counter("very_long_list_files") == 0 {
 		r.Inconclusive("no file with more than 8 recipients was exercised")
 	}
